@@ -66,8 +66,8 @@ func TestCheck(t *testing.T) {
 	n := rt.PerShard(rt.N(400000, 3000000))
 	rt.Rapid(t, "variants", n, func(t *rapid.T) {
 		spec := gen.GenType(t, typeCfg())
+		repairPtrRecv(spec) // first: it can create pointer-shaped structs, which RepairEncSpec has to see
 		known.RepairEncSpec(spec)
-		repairPtrRecv(spec)
 		typ := enc.SafeType(spec)
 		if typ == nil {
 			t.Skip("reflect refuses the shape")
